@@ -193,7 +193,12 @@ def decode_json_document(content, document):
     for bundle_id, bundle_content in bundles.items():
         bundle = ProvBundle(document=document)
         decode_json_container(bundle_content, bundle)
-        document.add_bundle(bundle, bundle.valid_qualified_name(bundle_id))
+        # a bundle's identifier belongs to the document's namespace scope (the
+        # bundle may bind the same prefix to another namespace)
+        bundle_identifier = document.valid_qualified_name(bundle_id)
+        if bundle_identifier is None:
+            bundle_identifier = bundle.valid_qualified_name(bundle_id)
+        document.add_bundle(bundle, bundle_identifier)
 
 
 def decode_json_container(jc, bundle):
